@@ -1450,7 +1450,6 @@ class PolyhedralTermList(TermList):  # noqa: WPS338
         slack = res["slack"]
         indices = np.where(np.isclose(slack, 0))[0]
 
-        assert len(indices) >= num_vars_to_elim
         terms_added = 0
         for index in indices:
             context_term = context.terms[index]
@@ -1462,6 +1461,21 @@ class PolyhedralTermList(TermList):  # noqa: WPS338
 
         if terms_added < num_vars_to_elim:
             raise ValueError("Context has insufficient information")
+
+        # The substitution is only valid if the term's coefficients on the
+        # eliminated variables are a combination of the chosen rows with
+        # multipliers of the right sign. At a degenerate optimum, the first
+        # active rows need not have this property.
+        row_mat = np.array([[row.get_coefficient(var) for var in forbidden_vars] for row in matrix_row_terms])
+        goal = np.array([term.get_coefficient(var) for var in forbidden_vars])
+        try:
+            multipliers = np.linalg.solve(row_mat.T, goal)
+        except np.linalg.LinAlgError as e:
+            raise ValueError("Context rows do not determine the variables to eliminate") from e
+        if not refine:
+            multipliers = -multipliers
+        if np.any(multipliers < -1e-9):  # noqa: WPS432 magic number
+            raise ValueError("Context rows do not bound the term in the required direction")
 
         return matrix_row_terms, forbidden_vars
 
